@@ -233,6 +233,8 @@ def ob_vlookup_approx(nr, v: int, c: int, k0: int = 0, k1: int = 0, k2: int = 0,
         return None
     table = tuple((keys[i], data[i]) for i in range(nr))
     r = W_VLOOKUP(v, table, c, True)
+    if not same(r, W_HLOOKUP(v, (keys, data), c, True)):
+        return False                # VLOOKUP on a table = HLOOKUP on its transpose (approximate match too)
     best = None
     for i in range(nr):
         if keys[i] <= v:
